@@ -666,7 +666,7 @@ func reverseFunc(q query, t iterator) func() NodeNavigator {
 }
 
 // string-join is a XPath Node Set functions string-join(node-set, separator).
-func stringJoinFunc(q, arg1 query) func(query, iterator) interface{} {
+func stringJoinFunc(arg, arg1 query) func(query, iterator) interface{} {
 	return func(_ query, t iterator) interface{} {
 		var separator string
 		switch v := functionArgs(arg1).Evaluate(t).(type) {
@@ -679,7 +679,7 @@ func stringJoinFunc(q, arg1 query) func(query, iterator) interface{} {
 			}
 		}
 
-		q = functionArgs(q)
+		q := functionArgs(arg)
 		test := predicate(q)
 		var parts []string
 		switch v := q.Evaluate(t).(type) {
